@@ -163,13 +163,22 @@ def r4_recur_rest_argument_repacking(ctx):
             out.extend(interp.iterate(x))
         return tuple(out)
 
-    interp = Interp(globals_={"itertools.chain": chain})
+    # collaborators a variant may reach for: modelled so that a wrong re-packing is reported as a
+    # wrong tuple instead of an uninterpretable program
+    def to_seq(x):
+        return None if x is None or (isinstance(x, Obj) and not x.f.get("_items")) else x
+
+    interp = Interp(globals_={"itertools.chain": chain, "chain": chain, "to_seq": to_seq, "lseq.to_seq": to_seq,
+                              "_WrappedRestArgs": lambda x: ("<wrapped rest args>", x)})
+    lazy = ClassModel(ast.parse("class LazySeq:\n    pass\n").body[0], bases=(iseq,))
     seq12 = Obj(iseq, _items=(1, 2))
     empty = Obj(iseq, _items=())
+    lazy12 = Obj(lazy, _items=(1, 2))
     cases = [
         ("variadic, rest=nil", True, (7, None), (7,)),
         ("variadic, rest=(1 2)", True, (7, seq12), (7, 1, 2)),
         ("variadic, rest=()", True, (7, empty), (7,)),
+        ("variadic, rest=lazy (1 2): spliced like any other seq (a wrapper would nest one level per iteration)", True, (7, lazy12), (7, 1, 2)),
         ("variadic, only rest=nil", True, (None,), ()),
         ("non-variadic", False, (7, 8), (7, 8)),
         ("non-variadic, nil argument kept", False, (7, None), (7, None)),
